@@ -108,6 +108,11 @@ func genC20(seed uint64, tier string, idx int) (p *Plan) {
 				raw = t.CreateDefaultCommandData(consts.JT808CommandType(cmd))
 			}
 			frames = append(frames, SentFrame{ID: cmd, Serial: uint16(i + 1), Raw: raw, Valid: true, Name: HexStr(phone)})
+			if g.r.chance(40) {
+				// a user predicts the reply right away, for whatever platform serial: must not disturb the
+				// simulator's own serial progression
+				_ = t.ExpectedReply(uint16(g.r.next()), hex.EncodeToString(raw))
+			}
 		}
 		g.connActor(ci, frames, g.segStyle(), 0)
 	}
